@@ -167,6 +167,7 @@ impl Prop for C03 {
         4096
     }
     fn gen(&self, g: &mut G<'_>, _tier: Tier) -> Case {
+        g.allow_offers = true;
         let opts = ConvOpts { max_cmds: 8, max_rows: 6, sentinels: true, default_init_sometimes: true, quit_sometimes: true };
         let mut conv = gen_conv(g, &opts);
         let contradiction = if g.chance(1, 5) { make_contradiction(g, &mut conv) } else { None };
@@ -341,6 +342,22 @@ impl Prop for C03 {
             return ex;
         }
 
+        if o.failed_after_refused_offer && !o.result.is_panic() {
+            // the library refused a contradicting write_col and then also what followed on the same
+            // RowWriter: outside "every way ... that reports success"; nothing malformed may have
+            // gone out, and the error the shim propagated must end the connection
+            ex.class("writer-unusable-after-a-refusal");
+            let d = decode_output(&o.out[..o.flushed], &kinds);
+            if let Some(p) = &d.problem {
+                if !d.truncated_only {
+                    ex.fail("c03-malformed-after-contradiction", format!("flushed output is malformed: {}", p));
+                }
+            }
+            if !o.result.is_err() {
+                ex.fail("c03-contradiction-result", format!("the shim propagated the refusal but run_on returned {}", o.result.brief()));
+            }
+            return ex;
+        }
         if !o.result.is_ok() {
             ex.fail("c03-run-result", format!("run_on returned {} for a conversation whose writer calls all report success", o.result.brief()));
             if o.result.is_panic() {
